@@ -27,12 +27,15 @@ func rulesC10(c *Ctx) {
 		"R10.2 the stop request of an abandoned Get can be delivered: a channel that its consumers only poll is closed by its owner on every exit, never signalled with a non-blocking send",
 		"R10.3 teardown cannot touch persistent state: neither deleteClient nor anything reachable from the Get RPC reaches an AFT mutator, a reference-counter primitive, the pending set or the election state (PRESERVE = no such code path exists)",
 		"R10.4 the session table is cleaned on every exit of Modify (C09 R9.6)",
-		"R10.5 every lock acquired by server/RIB code is released on every path")
+		"R10.5 every lock acquired by server/RIB code is released on every path",
+		"R10.6 the election state outlives every session: curElecID / curMaster are written by runElection only (a departing session clears or promotes nothing), and what runElection compares an announcement with is the stored id (its decision table, shared with C05/C09)")
 	c.NotDec = append(c.NotDec, "promptness and transport behaviour", "goroutines that outlive an abandoned RPC without holding a lock (listed as notes)")
 	ruleLockDiscipline(c, lockSel{classes: serverLockClasses, pkgs: []string{"server", "rib"}, blocking: true, pairing: true, noGuarded: true})
 	ruleStopSignal(c)
 	ruleTeardownReach(c)
 	ruleSessionFootprint(c)
+	ruleElectionWriters(c)
+	ruleRunElectionTable(c)
 }
 
 func rulesC11(c *Ctx) {
@@ -48,6 +51,7 @@ func rulesC11(c *Ctx) {
 	ruleEntryImmutability(c)
 	ruleElectionWriters(c)
 	ruleElectionAtomic(c)
+	ruleAtomicUpdate(c, []string{"server", "rib"}, 0) // no guarded field is rewritten from a copy read under an earlier acquisition
 	// Flush holds the locks of all listed instances at once: it must take them in the order of the list it is
 	// given (callers pass one name or the sorted list), never in map-iteration order (shared with C08)
 	ruleFlushScope(c)
